@@ -30,7 +30,7 @@ func stressCollection(capacity int, keyed bool) *column.Collection {
 }
 
 var enumTags = func() []string {
-	out := make([]string, 64)
+	out := make([]string, 4096) // new strings keep being interned for most of a round
 	for i := range out {
 		out[i] = "tag-" + strconv.Itoa(i)
 	}
@@ -42,7 +42,7 @@ func writeTag(r column.Row, t int64) {
 	r.SetUint32("u", uint32(t))
 	r.SetFloat64("f", float64(t&(1<<52-1)))
 	r.SetString("s", strconv.FormatInt(t, 36))
-	r.SetEnum("e", enumTags[t&63])
+	r.SetEnum("e", enumTags[t&4095])
 	r.SetBool("b", t&1 == 1)
 }
 
@@ -64,7 +64,7 @@ func judgeTag(idx uint32, a int64, okA bool, u uint32, okU bool, f float64, okF 
 	if !okU || !okF || !okS || !okE {
 		return a, fmt.Sprintf("row %d: a=%d present but u/f/s/e presence = %v/%v/%v/%v", idx, a, okU, okF, okS, okE)
 	}
-	if u != uint32(a) || f != float64(a&(1<<52-1)) || s != strconv.FormatInt(a, 36) || e != enumTags[a&63] || b != (a&1 == 1) {
+	if u != uint32(a) || f != float64(a&(1<<52-1)) || s != strconv.FormatInt(a, 36) || e != enumTags[a&4095] || b != (a&1 == 1) {
 		return a, fmt.Sprintf("row %d mixes two committed states: a=%d u=%d f=%v s=%q(%s) e=%q b=%v", idx, a, u, f, s, strconv.FormatInt(a, 36), e, b)
 	}
 	if a&poison != 0 {
